@@ -90,6 +90,17 @@ func registerSyncIntrinsics(reg regFn) {
 		if iv.t == nil {
 			return nil
 		}
+		// an object that is already in the pool's free set: two later Gets would hand the same
+		// memory to two owners
+		if bs, ok := iv.v.(BSlice); ok && bs.obj != nil {
+			for _, f := range ps.free {
+				if fb, ok := f.(IfaceV).v.(BSlice); ok && fb.obj == bs.obj {
+					if in.attribute() != "" {
+						in.e.Report("pool", "a buffer was returned to a sync.Pool twice (two later owners would share it)", site, "double Put")
+					}
+				}
+			}
+		}
 		markPooled(iv, true)
 		ps.free = append(ps.free, iv)
 		in.raceRelease(p)
